@@ -297,7 +297,7 @@ theorem takeWhile_map_key (ns k : Text) (l : List Text) :
 /-- names in member order: the greedy sequence match succeeds iff every member's count is admissible -/
 theorem seqOk_inOrder (F6 : Facts06) (tns ns : Text) (fields : List (Text × Ty)) (hn : namesNodup fields = true) :
     ∀ names : List Text, inOrder (fields.map (·.1)) names = true →
-      seqOk (slotsS (denoteFields F6 tns ns fields)) (names.map (fun n => (ns, n))) =
+      seqOk (slotsS (denoteFields (primFacets F6) tns ns fields)) (names.map (fun n => (ns, n))) =
         fields.all (fun f => f.2.occ.countOk (names.count f.1)) := by
   induction fields with
   | nil =>
@@ -330,8 +330,8 @@ theorem seqOk_inOrder (F6 : Facts06) (tns ns : Text) (fields : List (Text × Ty)
 /-! ### the member loop and the item loop -/
 
 theorem findS_of_lookupField (F6 : Facts06) (tns ns : Text) (fields : List (Text × Ty)) (k : Text) :
-    findS (denoteFields F6 tns ns fields) (ns, k) =
-      (lookupField fields k).map (fun mt => (mt.occ, denote F6 tns ns mt)) := by
+    findS (denoteFields (primFacets F6) tns ns fields) (ns, k) =
+      (lookupField fields k).map (fun mt => (mt.occ, denote (primFacets F6) tns ns mt)) := by
   induction fields with
   | nil => rfl
   | cons f r ih =>
@@ -382,9 +382,9 @@ theorem childLoop_ok (F : Facts08) (X : FactsXml) (F6 : Facts06) (I : Iface) (ns
     (hw : fieldsWf fields = true) :
     ∀ (cs : List Node) (st : List (Text × Val)),
       (∀ c ∈ cs, ∀ mt, lookupField fields c.name = some mt →
-        isOk (fromElement F X softCfg I mt c) = validS (denote F6 I.tns ns mt) mt.occ.nillable c) →
+        isOk (fromElement F X softCfg I mt c) = validS (denote (primFacets F6) I.tns ns mt) mt.occ.nillable c) →
       commonChildren F X I.tns ns fields cs = true →
-      isOk (childLoop F X softCfg I fields cs st) = validChildrenS (denoteFields F6 I.tns ns fields) cs := by
+      isOk (childLoop F X softCfg I fields cs st) = validChildrenS (denoteFields (primFacets F6) I.tns ns fields) cs := by
   intro cs
   induction cs with
   | nil => intro st _ _; rfl
@@ -413,10 +413,10 @@ theorem childLoop_ok (F : Facts08) (X : FactsXml) (F6 : Facts06) (I : Iface) (ns
 
 theorem arrayLoop_ok (F : Facts08) (X : FactsXml) (F6 : Facts06) (I : Iface) (ctx mns mloc : Text) (elem : Ty) :
     ∀ cs : List Node,
-      (∀ c ∈ cs, isOk (fromElement F X softCfg I elem c) = validS (denote F6 I.tns ctx elem) elem.occ.nillable c) →
+      (∀ c ∈ cs, isOk (fromElement F X softCfg I elem c) = validS (denote (primFacets F6) I.tns ctx elem) elem.occ.nillable c) →
       commonItems F X I.tns ctx mns mloc elem cs = true →
       isOk (arrayLoop F X softCfg I elem cs) =
-        validChildrenS [((mns, mloc), elem.occ, denote F6 I.tns ctx elem)] cs ∧
+        validChildrenS [((mns, mloc), elem.occ, denote (primFacets F6) I.tns ctx elem)] cs ∧
       ∀ c ∈ cs, nodeKey c = (mns, mloc) := by
   intro cs
   induction cs with
@@ -471,11 +471,11 @@ theorem nil_true_cases (v : Text) (h : (v = "true".toList || v = "1".toList) = t
 /-- **C**: on the common form, soft validation and validity for the denoted schema type coincide -/
 theorem soft_eq_validS (F : Facts08) (X : FactsXml) (F6 : Facts06) (I : Iface) :
     ∀ (x : Node) (t : Ty) (ctx : Text), tyWf t = true → commonForm F X I.tns ctx t x = true →
-      isOk (fromElement F X softCfg I t x) = validS (denote F6 I.tns ctx t) t.occ.nillable x := by
+      isOk (fromElement F X softCfg I t x) = validS (denote (primFacets F6) I.tns ctx t) t.occ.nillable x := by
   intro x
   induction x using Node.rec (motive_2 := fun cs => ∀ c ∈ cs, ∀ (t : Ty) (ctx : Text), tyWf t = true →
       commonForm F X I.tns ctx t c = true →
-      isOk (fromElement F X softCfg I t c) = validS (denote F6 I.tns ctx t) t.occ.nillable c) with
+      isOk (fromElement F X softCfg I t c) = validS (denote (primFacets F6) I.tns ctx t) t.occ.nillable c) with
   | nil => rename_i c hm _ _ _ _; cases hm
   | cons head tail ih1 ih2 =>
     rename_i c hm t ctx hw hcf
@@ -587,13 +587,13 @@ theorem soft_eq_validS (F : Facts08) (X : FactsXml) (F6 : Facts06) (I : Iface) :
               rcases List.mem_cons.mp hc with e' | e'
               · subst e'; exact hci.1.2
               · exact ihc (fun x hx => ih x (by simp [hx])) hci.2 e')) hci
-        have htxt : textOk ([((memberNs I.tns ctx m e, memberLocal m), e.occ, denote F6 I.tns ctx e)] : List (Key × Occ × STy)).isEmpty text = true := by
+        have htxt : textOk ([((memberNs I.tns ctx m e, memberLocal m), e.occ, denote (primFacets F6) I.tns ctx e)] : List (Key × Occ × STy)).isEmpty text = true := by
           simpa [textOk] using htx
         have hall : ∀ x ∈ children.map nodeKey, x = (memberNs I.tns ctx m e, memberLocal m) := by
           intro x hx
           obtain ⟨y, hy, e'⟩ := List.mem_map.mp hx
           rw [← e']; exact hal.2 y hy
-        have hseq : seqOk (slotsS [((memberNs I.tns ctx m e, memberLocal m), e.occ, denote F6 I.tns ctx e)]) (children.map nodeKey) = true := by
+        have hseq : seqOk (slotsS [((memberNs I.tns ctx m e, memberLocal m), e.occ, denote (primFacets F6) I.tns ctx e)]) (children.map nodeKey) = true := by
           rw [eq_replicate_of_all _ _ hall, ← List.append_nil (List.replicate _ _)]
           simp only [slotsS, List.map_cons, List.map_nil]
           rw [seqOk_block _ _ _ _ _ _ (by intro x hx; cases hx)]
@@ -603,7 +603,12 @@ theorem soft_eq_validS (F : Facts08) (X : FactsXml) (F6 : Facts06) (I : Iface) :
         cases arrayLoop F X softCfg I e children <;> rfl
 
 /-- **lxml_soft_agree** for documents -/
-theorem lxml_soft_agree_gen (F : Facts08) (X : FactsXml) (A : App) (hwf : A.wf = true)
+theorem primFacetsA_no_values (A : App) (h : A.values = []) : primFacetsA A = primFacets A.facts := by
+  funext p
+  have : A.extraVals p = [] := by cases p <;> simp [App.extraVals, h]
+  simp [primFacetsA, App.enumLits, this]
+
+theorem lxml_soft_agree_gen (F : Facts08) (X : FactsXml) (A : App) (hwf : A.wf = true) (hnv : A.values = [])
     (C : ClassDef) (hC : C ∈ A.iface.classes) (ns name : Text) (text : Option Text) (children : List Node)
     (hkey : (ns, name) = (C.ns, C.name))
     (hcf : commonForm F X A.tns C.ns (ClassDef.toTy C) (.elem ns name [] text children) = true) :
@@ -613,8 +618,8 @@ theorem lxml_soft_agree_gen (F : Facts08) (X : FactsXml) (A : App) (hwf : A.wf =
   rw [valid_gen A hwf C hC _ (by simpa [nodeKey] using hkey)]
   have h := soft_eq_validS F X A.facts A.iface (.elem ns name [] text children) (ClassDef.toTy C) C.ns
     (tyWf_toTy A hwf C hCa) hcf
-  rw [validS_no_attrs _ false (ClassDef.toTy C).occ.nillable]
-  have h' : validS (denote A.facts A.tns C.ns (ClassDef.toTy C)) (ClassDef.toTy C).occ.nillable
+  rw [validS_no_attrs _ false (ClassDef.toTy C).occ.nillable, primFacetsA_no_values A hnv]
+  have h' : validS (denote (primFacets A.facts) A.tns C.ns (ClassDef.toTy C)) (ClassDef.toTy C).occ.nillable
       (.elem ns name [] text children) =
       isOk (fromElement F X softCfg A.iface (ClassDef.toTy C) (.elem ns name [] text children)) := h.symm
   rw [h']
@@ -649,6 +654,9 @@ def goodDoc : Node :=
   .elem (T "urn:t") (T "m") [] none
     [.elem (T "urn:t") (T "d") [] none
       [.elem (T "urn:a") (T "x") [] (some (T "3")) [], .elem (T "urn:a") (T "u") [] (some (T "ab")) []]]
+
+/-- `values = [5, 7]` on the `Integer8(ge=3)` member -/
+def exVals : List (PrimTy × List Val) := [(.integer .i8 { ge := some 3 }, [.int 5, .int 7])]
 
 theorem value_conforms : conformsOne (ClassDef.toTy cMsg) (.obj cMsg.name value) = true := by
   simp [ClassDef.toTy, cMsg, msgFields, value, derFields, baseFields, conformsOne, conformsFields, conforms, conformsArr,
